@@ -1043,3 +1043,209 @@ Proof.
     apply trace_shift; auto; [lia | ].
     eapply Forall_impl; [ | exact Hl]. intros j [Hj1 Hj2]. split; [exact Hj1 | lia].
 Qed.
+
+(* ------------------------------------------------------------------ energy balance with moving atoms and a time-dependent bias force *)
+(* exact discrete work-energy identity of one frictionless step.  E* = Ek + Ep - Dt^2 F_t^2/(8m)  (F_t = total force on the coordinate
+   at step t; Ek - Dt^2 F_t^2/(8m) = 1/2 m v_(t-1/2) v_(t+1/2)) changes from step t to t+1 by exactly the trapezoidal work of the bias
+   force on the coordinate minus the trapezoidal work of the spring on the moving variable *)
+Definition doc_estar (c : @config R) (p : @params R) (x v X fb : R) : R :=
+  doc_ekin c p x v X fb + doc_epot p x X - Dt c ^ 2 * doc_force p x X fb ^ 2 / (8 * p_m p).
+
+Lemma doc_energy_balance c p x v X1 fb1 X2 fb2 rnd :
+  p_langevin p = false -> p_m p <> 0 ->
+  let q := doc_step c p x v X1 fb1 rnd in
+  doc_estar c p (fst q) (snd q) X2 fb2 - doc_estar c p x v X1 fb1
+  = 1 / 2 * (fb1 + fb2) * (fst q - x) - 1 / 2 * p_k p * ((x - X1) + (fst q - X2)) * (X2 - X1).
+Proof.
+  intros Hl Hm q. unfold q, doc_step. rewrite Hl. cbn [fst snd]. unfold doc_estar, doc_ekin, doc_epot, doc_force. field. exact Hm.
+Qed.
+
+Lemma doc_estar_half_steps c p x v X fb :
+  p_m p <> 0 ->
+  doc_ekin c p x v X fb - Dt c ^ 2 * doc_force p x X fb ^ 2 / (8 * p_m p)
+  = 1 / 2 * p_m p * v * (v + Dt c * doc_force p x X fb / p_m p).
+Proof. intros Hm. unfold doc_ekin. field. exact Hm. Qed.
+
+Definition io_estar (c : @config R) (p : @params R) (io : @input R * (R * R * R * R * R * R)) : R :=
+  let '(i, o) := io in
+  ob_ek o + ob_ep o - Dt c ^ 2 * (i_fb i / IZR (c_tsf c) - p_k p * (ob_x o - i_x i)) ^ 2 / (8 * p_m p).
+
+Fixpoint dwork (c : @config R) (p : @params R) (ls : list (@input R * (R * R * R * R * R * R))) : R :=
+  match ls with
+  | (i1, o1) :: (((i2, o2) :: _) as r) =>
+      1 / 2 * (i_fb i1 / IZR (c_tsf c) + i_fb i2 / IZR (c_tsf c)) * (ob_x o2 - ob_x o1)
+      - 1 / 2 * p_k p * ((ob_x o1 - i_x i1) + (ob_x o2 - i_x i2)) * (i_x i2 - i_x i1)
+      + dwork c p r
+  | _ => 0
+  end.
+
+Lemma doc_run_work c p :
+  p_langevin p = false -> p_m p <> 0 ->
+  forall l x v d,
+    let ls := combine l (doc_run c p x v l) in
+    io_estar c p (last ls d) - io_estar c p (hd d ls) = dwork c p ls.
+Proof.
+  intros Hl Hm. induction l as [| i1 r IH]; intros x v d; [cbn; ring | ].
+  destruct r as [| i2 r].
+  - cbn [doc_run]. destruct (doc_step c p x v (i_x i1) (i_fb i1 / IZR (c_tsf c)) (i_rnd i1)) as [x' v']. cbn. ring.
+  - pose proof (doc_energy_balance c p x v (i_x i1) (i_fb i1 / IZR (c_tsf c)) (i_x i2) (i_fb i2 / IZR (c_tsf c)) (i_rnd i1) Hl Hm) as Hb.
+    cbn zeta in Hb. cbn zeta in IH. cbn zeta. cbn [doc_run] in *.
+    destruct (doc_step c p x v (i_x i1) (i_fb i1 / IZR (c_tsf c)) (i_rnd i1)) as [x' v'] eqn:Hd. cbn [fst snd] in Hb.
+    specialize (IH x' v' d). cbn [doc_run] in IH.
+    destruct (doc_step c p x' v' (i_x i2) (i_fb i2 / IZR (c_tsf c)) (i_rnd i2)) as [x'' v''] eqn:Hd2.
+    cbn [combine] in *. set (tail := combine r (doc_run c p x'' v'' r)) in *.
+    set (o1 := (x, v, x', v', doc_ekin c p x v (i_x i1) (i_fb i1 / IZR (c_tsf c)), doc_epot p x (i_x i1))) in *.
+    set (o2 := (x', v', x'', v'', doc_ekin c p x' v' (i_x i2) (i_fb i2 / IZR (c_tsf c)), doc_epot p x' (i_x i2))) in *.
+    change (last ((i1, o1) :: (i2, o2) :: tail) d) with (last ((i2, o2) :: tail) d).
+    cbn [hd dwork] in *.
+    assert (E1 : io_estar c p (i1, o1) = doc_estar c p x v (i_x i1) (i_fb i1 / IZR (c_tsf c))) by reflexivity.
+    assert (E2 : io_estar c p (i2, o2) = doc_estar c p x' v' (i_x i2) (i_fb i2 / IZR (c_tsf c))) by reflexivity.
+    rewrite E1. rewrite E2 in IH. change (ob_x o1) with x. change (ob_x o2) with x' in *. lra.
+Qed.
+
+Lemma run_energy_balance c p l d :
+  free_cfg c -> (0 < c_tsf c)%Z -> p_langevin p = false -> p_m p <> 0 -> consecutive (c_tsf c) 0 l ->
+  let ls := combine l (map obs (trace Rops c p (init_state Rops) l)) in
+  io_estar c p (last ls d) - io_estar c p (hd d ls) = dwork c p ls.
+Proof.
+  intros Hfree Hf Hl Hm Hc. rewrite (trace_fresh_documented c p l Hfree Hf Hc). apply doc_run_work; assumption.
+Qed.
+
+(* the reported Ek + Ep exceeds E* by Dt^2 F_t^2/(8m): second order in the time step, bounded when the forces are *)
+Lemma estar_gap c p x v X fb Fmax :
+  0 < p_m p -> Rabs (doc_force p x X fb) <= Fmax ->
+  0 <= (doc_ekin c p x v X fb + doc_epot p x X) - doc_estar c p x v X fb <= Dt c ^ 2 * Fmax ^ 2 / (8 * p_m p).
+Proof.
+  intros Hm HF. unfold doc_estar.
+  replace (doc_ekin c p x v X fb + doc_epot p x X - (doc_ekin c p x v X fb + doc_epot p x X - Dt c ^ 2 * doc_force p x X fb ^ 2 / (8 * p_m p)))
+    with (Dt c ^ 2 * doc_force p x X fb ^ 2 / (8 * p_m p)) by ring.
+  assert (H2 : doc_force p x X fb ^ 2 <= Fmax ^ 2).
+  { rewrite <- (pow2_abs (doc_force p x X fb)). apply pow_incr. split; [apply Rabs_pos | exact HF]. }
+  assert (H0 : 0 <= doc_force p x X fb ^ 2) by apply pow2_ge_0.
+  assert (Hd : 0 <= Dt c ^ 2) by apply pow2_ge_0.
+  assert (Hi : 0 < / (8 * p_m p)) by (apply Rinv_0_lt_compat; lra).
+  unfold Rdiv. split.
+  - apply Rmult_le_pos; [apply Rmult_le_pos; assumption | lra].
+  - apply Rmult_le_compat_r; [lra | ]. apply Rmult_le_compat_l; assumption.
+Qed.
+
+(* ------------------------------------------------------------------ Langevin: stationary covariance of the B-A-O-A scheme, harmonic case *)
+(* with frozen atoms at X and no bias force the step is LINEAR in (x - X, v, xi): *)
+Definition la (c : @config R) (p : @params R) : R := exp (- (p_gamma p * Dt c)).
+Definition lw (c : @config R) (p : @params R) : R := Dt c * p_k p / p_m p.
+Definition A11 c p : R := 1 - Dt c / 2 * (1 + la c p) * lw c p.
+Definition A12 c p : R := Dt c / 2 * (1 + la c p).
+Definition A21 c p : R := - (la c p * lw c p).
+Definition A22 c p : R := la c p.
+Definition N1 c p : R := Dt c / 2 * (p_sigma p / p_m p).
+Definition N2 (p : @params R) : R := p_sigma p / p_m p.
+
+Lemma doc_step_linear c p x v X rnd :
+  p_langevin p = true -> p_m p <> 0 ->
+  fst (doc_step c p x v X 0 rnd) - X = A11 c p * (x - X) + A12 c p * v + N1 c p * rnd /\
+  snd (doc_step c p x v X 0 rnd) = A21 c p * (x - X) + A22 c p * v + N2 p * rnd.
+Proof.
+  intros Hl Hm. unfold doc_step, doc_force. rewrite Hl. cbn [fst snd].
+  unfold A11, A12, A21, A22, N1, N2, lw, la. split; field; exact Hm.
+Qed.
+
+(* second moments of (x - X, v) after one step, from those before and an independent Gaussian number of unit variance *)
+Definition cov_step c p (S : R * R * R) : R * R * R :=
+  let '(Sxx, Sxv, Svv) := S in
+  (A11 c p ^ 2 * Sxx + 2 * A11 c p * A12 c p * Sxv + A12 c p ^ 2 * Svv + N1 c p ^ 2,
+   A11 c p * A21 c p * Sxx + (A11 c p * A22 c p + A12 c p * A21 c p) * Sxv + A12 c p * A22 c p * Svv + N1 c p * N2 p,
+   A21 c p ^ 2 * Sxx + 2 * A21 c p * A22 c p * Sxv + A22 c p ^ 2 * Svv + N2 p ^ 2).
+
+(* the thermal covariance <(x-X)^2> = kT/k, <v_(t-1/2)^2> = kT/m, <(x-X) v_(t-1/2)> = Dt kT/(2m) is stationary, for EVERY
+   time step and friction: positions and half-step velocities sample the target temperature exactly; the on-step velocity used
+   for the reported kinetic energy has variance (kT/m)(1 - h) *)
+Lemma langevin_stationary c p kT :
+  p_m p <> 0 -> p_k p <> 0 -> p_sigma p ^ 2 = (1 - la c p ^ 2) * p_m p * kT ->
+  let S := (kT / p_k p, Dt c / 2 * (kT / p_m p), kT / p_m p) in
+  cov_step c p S = S /\
+  (let '(Sxx, Sxv, Svv) := S in Svv - lw c p * Sxv + (lw c p / 2) ^ 2 * Sxx) = kT / p_m p * (1 - hfac c p).
+Proof.
+  intros Hm Hk Hs. cbn zeta. split.
+  - unfold cov_step. 
+    assert (Hn2 : N2 p ^ 2 = (1 - la c p ^ 2) * kT / p_m p).
+    { unfold N2. replace ((p_sigma p / p_m p) ^ 2) with (p_sigma p ^ 2 / (p_m p ^ 2)) by (field; exact Hm). rewrite Hs. field. exact Hm. }
+    assert (Hn1 : N1 c p ^ 2 = (Dt c / 2) ^ 2 * N2 p ^ 2) by (unfold N1, N2; ring).
+    assert (Hn12 : N1 c p * N2 p = Dt c / 2 * N2 p ^ 2) by (unfold N1, N2; ring).
+    rewrite Hn1, Hn12, Hn2. unfold A11, A12, A21, A22, lw. generalize (la c p). intro a.
+    apply tup4 with (d := tt) (d' := tt) || idtac.
+    f_equal; [f_equal | ]; field; split; assumption.
+  - unfold lw, hfac. field. split; assumption.
+Qed.
+
+Lemma sigma_sq_documented c :
+  c_damping c <> 0 -> 0 <= c_kB c * c_temp c -> 0 <= p_m (init_params Rops PI c) -> 0 <= p_gamma (init_params Rops PI c) * Dt c ->
+  let p := init_params Rops PI c in
+  p_sigma p ^ 2 = (1 - la c p ^ 2) * p_m p * (c_kB c * c_temp c).
+Proof.
+  intros Hd HkT Hm Hg p. destruct (params_langevin c Hd) as (_ & _ & Hs). fold p in Hs, Hm, Hg. rewrite Hs.
+  assert (Ha : la c p ^ 2 = exp (- 2 * p_gamma p * Dt c)).
+  { unfold la. simpl. rewrite Rmult_1_r, <- exp_plus. f_equal. ring. }
+  rewrite Ha.
+  replace ((1 - exp (- 2 * p_gamma p * Dt c)) * p_m p * c_kB c * c_temp c)
+    with ((1 - exp (- 2 * p_gamma p * Dt c)) * p_m p * (c_kB c * c_temp c)) by ring.
+  rewrite <- Rsqr_pow2, Rsqr_sqrt; [ring | ].
+  assert (He : exp (- 2 * p_gamma p * Dt c) <= 1).
+  { replace 1 with (exp 0) by apply exp_0. destruct (Req_dec (p_gamma p * Dt c) 0) as [Z | NZ].
+    - replace (- 2 * p_gamma p * Dt c) with 0 by lra. lra.
+    - left. apply exp_increasing. nra. }
+  apply Rmult_le_pos; [ | exact HkT]. apply Rmult_le_pos; lra.
+Qed.
+
+(* ------------------------------------------------------------------ periodic variable *)
+Lemma integrate_norefl c p xe ve F rnd :
+  c_refl_lo c = false -> c_refl_up c = false ->
+  integrate Rops c p xe ve F rnd =
+    let v2 := ve + Dt c * F / p_m p in
+    let v3 := if p_langevin p then exp (- (p_gamma p * Dt c)) * v2 + p_sigma p * rnd / p_m p else v2 in
+    (cv_wrap Rops c (xe + Dt c * (v2 + v3) / 2), v3, 1 / 2 * p_m p * (ve + Dt c * F / p_m p / 2) ^ 2, false).
+Proof.
+  intros Hlo Hup. unfold integrate, reflect. rewrite Hlo, Hup. cbn [andb orb].
+  rewrite big_dt_R. cbn [nadd nsub nmul ndiv nneg nexp Rops n1 n0 nofZ nhalf].
+  replace (- (1) * Dt c * p_gamma p) with (- (p_gamma p * Dt c)) by ring.
+  assert (W : forall a b, a = b -> cv_wrap Rops c a = cv_wrap Rops c b) by (intros a b E; rewrite E; reflexivity).
+  destruct (p_langevin p); cbn zeta; apply tup4; try reflexivity; try apply W; unfold Rdiv;
+    generalize (/ p_m p); intro q; try (generalize (exp (- (p_gamma p * Dt c))); intro ex); field.
+Qed.
+
+(* the periodic image of the variable's value nearest to the coordinate *)
+Definition near_image (P xe X : R) : R := xe - pdiff Rops P (xe - X).
+
+(* one step of a periodic variable = the documented step towards the nearest periodic image of X, then wrapped into
+   [ctr - P/2, ctr + P/2); the image is X + n P with |xe - image| <= P/2 *)
+Lemma step_periodic_obs (c : @config R) (p : @params R) (s : @state R) (i : @input R) P ctr xe ve :
+  c_refl_lo c = false -> c_refl_up c = false -> c_period c = Some (P, ctr) -> 0 < P ->
+  i_running i = true -> tsf_error c s i = false -> props_xv Rops c s i = (xe, ve) ->
+  let fb := i_fb i / IZR (c_tsf c) in
+  let Xn := near_image P xe (i_x i) in
+  let q := doc_step c p xe ve Xn fb (i_rnd i) in
+  let s' := step Rops c p s i in
+  obs s' = (xe, ve, cvc_wrap Rops ctr P (fst q), snd q, doc_ekin c p xe ve Xn fb, doc_epot p xe Xn) /\
+  s_f s' = IZR (c_tsf c) * (p_k p * (xe - Xn)) + i_fba i /\
+  (exists n : Z, Xn = i_x i + IZR n * P) /\ - P / 2 <= xe - Xn < P / 2 /\
+  ctr - P / 2 <= cvc_wrap Rops ctr P (fst q) < ctr + P / 2 /\ (exists n : Z, cvc_wrap Rops ctr P (fst q) = fst q - IZR n * P) /\
+  s_err s' = false.
+Proof.
+  intros Hlo Hup Hper HP Hrun Herr Hp fb Xn q s'.
+  assert (Hsp : f_spring c p xe (i_x i) = - (p_k p * (xe - Xn))).
+  { unfold f_spring, spring, cv_lgrad, per_grad, Xn, near_image. rewrite Hper.
+    cbn [nmul nsub nofZ nneg nhalf ndiv n1 Rops]. field. }
+  assert (Hd2 : cv_dist2 Rops c xe (i_x i) = (xe - Xn) ^ 2).
+  { unfold cv_dist2, per_dist2, Xn, near_image. rewrite Hper. cbn [nmul nsub Rops]. ring. }
+  unfold s'. rewrite (step_running_eq c p s i Hrun Herr). rewrite Hp. cbn [fst snd].
+  rewrite (integrate_norefl c p _ _ _ _ Hlo Hup). rewrite Hsp, Hd2.
+  unfold obs, xext_or. cbn [s_x_rep s_v_rep s_x_ext s_v_ext s_ekin s_epot s_f s_err fst snd].
+  unfold cv_wrap. rewrite Hper. unfold q, doc_step, doc_ekin, doc_epot, doc_force. fold fb.
+  replace (fb + - (p_k p * (xe - Xn))) with (fb - p_k p * (xe - Xn)) by ring.
+  cbn [fst snd]. split; [reflexivity | ]. split; [ring | ].
+  split.
+  { unfold Xn, near_image. rewrite pdiff_eq. exists (Zfloor ((xe - i_x i) / P + 1 / 2)). ring. }
+  split.
+  { unfold Xn, near_image. replace (xe - (xe - pdiff Rops P (xe - i_x i))) with (pdiff Rops P (xe - i_x i)) by ring.
+    apply pdiff_range. exact HP. }
+  split; [apply cvc_wrap_range; exact HP | ]. split; [apply cvc_wrap_equiv | reflexivity].
+Qed.
